@@ -3,7 +3,7 @@ CONSTANTS MemCap = 64
           StackLimit = 3
           Wide = {0, 1, 4, 8, 11, 16, 21, 25, 29, 32, 53, 54, 55, 57, 61, 62, 80, 81, 82, 83, 84, 85, 86, 87, 88, 89, 91, 92, 93, 94, 95, 96, 97, 127, 128, 129, 144, 243, 253, 254, 12, 48, 160, 241, 255}
           WideLen = 2
-          Mid = {0, 1, 32, 53, 55, 82, 85, 87, 88, 91, 93, 95, 96, 243, 48}
+          Mid = {1, 32, 53, 82, 85, 87, 88, 91, 95, 96, 243, 48}
           MidLen = 3
           Narrow = {95, 96, 1, 82, 86, 91}
           NarrowLen = 4
